@@ -52,6 +52,8 @@ TNext == /\ l <= Len(Trace) /\ l' = l + 1
                                                   \cup (IF E.stray # <<>> THEN {"C11:stray-files"} ELSE {})
                            [] E.ev = "undecodable" -> {"C11:undecodable"}
                            [] E.ev = "starterr" -> {"C11:start-failed"}
+                           \* a concurrent reader opens every *.cptv the moment its name appears: "finished" means decodable then
+                           [] E.ev = "observe" -> (IF E.decodes THEN {} ELSE {"C11:finished-file-does-not-decode-when-it-appears"})
                            [] OTHER -> {} } :
                  IF v = {} THEN TRUE ELSE PrintT(<<"VIOL", l, v>>)
 Consumed == TLCGet("stats").diameter - 1 = Len(Trace)
